@@ -265,6 +265,21 @@ class CEmitter:
                                 'static %s %s(%s x) {\n' + ('  __CPROVER_assert(x >= -1 && x <= 1, "acos argument in [-1,1] and not NaN");\n' if getattr(self, 'domain_asserts', True) else '') +
                                 '  %s r = %s(x);\n  __CPROVER_assume(r >= 0 && r <= %s);\n  return r;\n}\n') % (t[1], ct, fn, ct, ct, uf, piup)
             return '%s(%s)' % (fn, self.ex(args[0]))
+        if name in ('isnan', 'isinf', 'isfinite'):
+            at = args[0][1]
+            sfx = {'float': 'f', 'double': 'd', 'long double': 'ld'}[at[1] if at[0] == 'f' else 'double']
+            return '__CPROVER_%s%s(%s)' % (name, sfx, self.ex(args[0]))
+        if name == 'hypot' and t[0] == 'f':
+            tag = {'float': 'f', 'double': 'd', 'long double': 'ld'}[t[1]]
+            fn = 'phqv_hypot_%s' % tag
+            uf = '__CPROVER_uninterpreted_hypot_%s' % tag
+            ct = self.ctype(t)
+            fabs_ = 'fabs' + suf
+            self.lib_used.add(('decl', uf, ct, (ct, ct)))
+            self.helpers[fn] = ('/* libm hypot replaced by its (assumed) contract: max(|x|,|y|) <= r <= |x| + |y| for finite arguments */\n'
+                                'static %s %s(%s x, %s y) {\n  %s r = %s(x, y);\n'
+                                '  __CPROVER_assume(r >= %s(x) && r >= %s(y) && r <= %s(x) + %s(y));\n  return r;\n}\n') % (ct, fn, ct, ct, ct, uf, fabs_, fabs_, fabs_, fabs_)
+            return '%s(%s, %s)' % (fn, self.ex(args[0]), self.ex(args[1]))
         if name == 'abs' and t[0] == 'f':
             return 'fabs%s(%s)' % (suf, self.ex(args[0]))
         if name in ('table_find', 'table_end', 'table_at', 'iter_second', 'iter_first', 'table_dispatch'):
